@@ -205,4 +205,125 @@ def NoEmptyClash (loc shared : Chain) : Prop :=
 def noEmptyClashB (loc shared : Chain) : Bool :=
   loc.all fun (k, v) => !(v.isEmpty && (shared.get k).isSome && shared.get k != some v)
 
+/-! ### string-valued relayer settings and numeric settings written as strings -/
+
+inductive SField where
+  | otel | logfile | env | id | keyshare | frostkeyshare | key | enckey | topourl | topopath | upurl | uptoken
+deriving DecidableEq, Repr
+
+/-- `RawRelayerConfig.Validate`: the three topology settings must be non-empty -/
+def SField.required : SField → Bool
+  | .enckey | .topourl | .topopath => true
+  | _ => false
+
+/-- creasty/defaults: an empty string is replaced by the declared default (only LogFile has one: "out.log") -/
+def SField.dflt : SField → Bytes
+  | .logfile => [111, 117, 116, 46, 108, 111, 103]
+  | _ => []
+
+/-- every loader (processRawConfig, file, env) on one string setting written as `v` (bytes): nothing is trimmed, split
+    or unescaped; an empty value takes the default, or fails validation for a required setting -/
+def loadStr (f : SField) (v : Bytes) : Option Bytes :=
+  if v = [] then (if f.required then none else some f.dflt) else some v
+
+/-- **P20 (strings)** on any candidate outcome: failure, or exactly the string written (the declared default when
+    nothing / the empty string was written) -/
+def PStr (f : SField) (v : Bytes) (out : Option Bytes) : Bool :=
+  match out with
+  | none => true
+  | some o => o == v || (v == [] && o == f.dflt)
+
+/-- a non-empty run of ASCII digits read in base 10 -/
+def decDigits (s : Bytes) : Option Nat :=
+  if s = [] then none else
+  s.foldl (fun acc c => acc.bind fun a => if 48 ≤ c.toNat ∧ c.toNat ≤ 57 then some (a * 10 + (c.toNat - 48)) else none) (some 0)
+
+/-- the decimal reading of a text: optional sign, then digits only (leading zeros allowed) — what "the value written,
+    as a decimal" means; anything else (0x…, 0b…, 1_000, 1e3, blanks) is not a decimal numeral -/
+def decimalReading (s : Bytes) : Option Int :=
+  match s with
+  | 43 :: r => (decDigits r).map fun n => (n : Int)
+  | 45 :: r => (decDigits r).map fun n => -(n : Int)
+  | r => (decDigits r).map fun n => (n : Int)
+
+/-- `new(big.Int).SetString(s, 10)` (BTC resource feeAmount) -/
+def loadFee (s : Bytes) : Option Int := decimalReading s
+
+/-- a typed numeric setting (int64 / uint64 / float64 field) written as a JSON STRING: mapstructure's strict decoding
+    refuses every string -/
+def loadTypedFromString (_ : Bytes) : Option Int := none
+
+/-- **P20 (numeric strings)** on any candidate outcome: failure, or the decimal value of the text written -/
+def PNumStr (s : Bytes) (out : Option Int) : Bool :=
+  match out with
+  | none => true
+  | some v => decimalReading s == some v
+
+/-! ### port TEXTS: `strconv.ParseUint(s, 0, 16)` as coded (base prefixes, leading-zero octal, underscores) -/
+
+def lowerB (c : UInt8) : UInt8 := if 65 ≤ c.toNat ∧ c.toNat ≤ 90 then c + 32 else c
+
+/-- value of one digit character in `ParseUint`'s loop (`none` = not a digit character) -/
+def digitOf (c : UInt8) : Option Nat :=
+  let n := c.toNat
+  if 48 ≤ n ∧ n ≤ 57 then some (n - 48)
+  else if 97 ≤ (lowerB c).toNat ∧ (lowerB c).toNat ≤ 122 then some ((lowerB c).toNat - 97 + 10)
+  else none
+
+/-- the digit loop in base `base`, underscores skipped (base-0 mode); (value, saw an underscore) -/
+def digitLoop (base : Nat) : Nat → Bool → Bytes → Option (Nat × Bool)
+  | acc, us, [] => some (acc, us)
+  | acc, us, c :: cs =>
+    if c = 95 then digitLoop base acc true cs
+    else match digitOf c with
+      | some d => if d < base then digitLoop base (acc * base + d) us cs else none
+      | none => none
+
+/-- `strconv.underscoreOK` -/
+def underscoreOKLoop (hex : Bool) : UInt8 → Bytes → Bool
+  | i, [] => i != 95
+  | i, c :: cs =>
+    if (48 ≤ c.toNat ∧ c.toNat ≤ 57) || (hex && 97 ≤ (lowerB c).toNat && (lowerB c).toNat ≤ 102) then underscoreOKLoop hex 48 cs
+    else if c = 95 then (if i != 48 then false else underscoreOKLoop hex 95 cs)
+    else if i = 95 then false
+    else underscoreOKLoop hex 33 cs
+
+def underscoreOK (s : Bytes) : Bool :=
+  let s := match s with | 43 :: r => r | 45 :: r => r | r => r
+  match s with
+  | 48 :: p :: r =>
+    if lowerB p = 98 || lowerB p = 111 || lowerB p = 120 then underscoreOKLoop (lowerB p = 120) 48 r
+    else underscoreOKLoop false 94 s
+  | _ => underscoreOKLoop false 94 s
+
+/-- `strconv.ParseUint(s, 0, bits)`; `none` = syntax or range error -/
+def parseUintBase0 (bits : Nat) (s : Bytes) : Option Nat :=
+  if s = [] then none else
+  let (base, body) : Nat × Bytes :=
+    match s with
+    | 48 :: p :: r =>
+      if r ≠ [] ∧ lowerB p = 98 then (2, r)
+      else if r ≠ [] ∧ lowerB p = 111 then (8, r)
+      else if r ≠ [] ∧ lowerB p = 120 then (16, r)
+      else (8, p :: r)
+    | 48 :: r => (8, r)
+    | r => (10, r)
+  match digitLoop base 0 false body with
+  | none => none
+  | some (v, us) =>
+    if us && !underscoreOK s then none
+    else if v < 2 ^ bits then some v else none
+
+/-- the port loaded for a written TEXT (repaired code: `ParseUint(s, 0, 16)` then `uint16`) -/
+def portText (s : Bytes) : Option Nat := (parseUintBase0 16 s).map (· % 65536)
+
+/-- **P20 (port texts)**: failure, or the decimal reading of the text (and that is a 16-bit port) -/
+def PPortText (s : Bytes) (out : Option Nat) : Bool :=
+  match out with
+  | none => true
+  | some p => decDigits s == some p && decide (p ≤ 65535)
+
+/-- the same with the KNOWN base-0 point excused: the candidate may also be exactly what base-0 parsing yields -/
+def PPortTextExc (s : Bytes) (out : Option Nat) : Bool := PPortText s out || out == portText s
+
 end Sygma.C20
